@@ -2,8 +2,27 @@
 import os
 from oblib import ob
 
-BOUNDS = {"quick": "", "thorough": ""}
-ASSUMPTIONS = []
+_COMMON = (
+    "jsontext only. depth: concrete towers open^a hole close^a with a in %s, shapes '[' / '{\"\":' / alternating, hole = %s symbolic bytes of the structural "
+    "alphabet { } [ ] : , \" a 1 space (so the innermost value, an extra level, or garbage), through ReadToken loop, ReadValue, SkipValue, Value.IsValid, "
+    "a/2 levels by tokens then ReadValue/SkipValue, Value.Format, Value.Compact, AppendFormat, Encoder.WriteValue, a/2 levels by WriteToken then WriteValue of the rest, "
+    "and a WriteToken pushes followed by one of 7 calls: accepted iff the reference grammar with depth limit 10000 accepts (so 10000 accepted, 10001 refused with a "
+    "*SyntacticError), no panic, refused call leaves depth unchanged. total: Token accessors (Kind, String, Clone, Bool, Int, Uint, Float, Float32) on the first/later token of "
+    "inputs of <=%s free bytes and templates, on constructor tokens with symbolic payloads and on the zero Token panic exactly on the wrong kind as documented; WithIndent/WithIndentPrefix on all "
+    "strings of <=%s bytes panic iff a non-blank byte is present; nil reader/writer/coder Reset panics are the documented ones and leave the coder usable. "
+    "nopanic: the engine reports any escaping panic in any harness of any property as a violation (not re-run here). "
+    "OUTSIDE: deep or cyclic typed Go values and cycle detection (reflection), Int/Uint/Float of number tokens with symbolic non-digit text (strconv), numbers whose "
+    "ParseFloat takes the Eisel-Lemire/overflow path (engine fault, see ASSUMPTIONS), wall-clock termination (only the step budget), depths other than those listed, AppendFloat bit sizes.")
+BOUNDS = {
+    "quick": _COMMON % ("{10000, 10001}", "0 or 1 (1 only for arrays at a=10000)", "2 (3 over a 24-letter alphabet)", "2"),
+    "thorough": _COMMON % ("9997..10002", "0, 1 or 2", "3 (4 over a 24-letter alphabet)", "3"),
+}
+ASSUMPTIONS = [
+    "reference verdict for a tower = zzspec.ValidText on its innermost level with the limit reduced by the a-1 enclosing levels (every enclosing level wraps exactly one value); "
+    "thorough tier additionally runs the recursive recogniser on the whole text for hole=0 and asserts agreement",
+    "unique-name checking is on (default options) for all towers except the obligations marked dup",
+    "engine fault avoided: strconv.ParseFloat on '1e400' / '-9223372036854775809' ends in 'interface conversion: main.Value is *main.Term, not main.FloatV' (math.IsNaN intrinsic); those two literals are not used",
+]
 
 BIG = 400_000_000
 P = "jsontext"
